@@ -364,11 +364,11 @@ func c13Spaces(c *fw.Ctx) {
 		qb, tb int // preemption bound: quick, thorough
 	}
 	list := []sc{
-		{"S1/tcp/0-clients", c13Opt{transport: "tcp"}, 3, 5},
-		{"S1/pc/0-clients", c13Opt{transport: "pc"}, 3, 5},
+		{"S1/tcp/0-clients", c13Opt{transport: "tcp"}, 100, 100}, // every interleaving (9 k executions)
+		{"S1/pc/0-clients", c13Opt{transport: "pc"}, 100, 100},   // every interleaving (163 k executions)
 		{"S1/tcp/1-client", c13Opt{transport: "tcp", clients: []string{"full"}}, 2, 3},
-		{"S1/pc/1-client", c13Opt{transport: "pc", clients: []string{"full"}}, 2, 3},
-		{"S1/tcp/silent-client", c13Opt{transport: "tcp", clients: []string{"silent"}}, 2, 3},
+		{"S1/pc/1-client", c13Opt{transport: "pc", clients: []string{"full"}}, 2, 4},
+		{"S1/tcp/silent-client", c13Opt{transport: "tcp", clients: []string{"silent"}}, 2, 4},
 		{"S1/tcp/half-frame-client", c13Opt{transport: "tcp", clients: []string{"half"}}, 2, 3},
 		{"S1/tcp/2-clients", c13Opt{transport: "tcp", clients: []string{"full", "full"}}, 0, 1},
 		{"S1/pc/2-clients", c13Opt{transport: "pc", clients: []string{"full", "full"}}, 1, 2},
